@@ -158,6 +158,20 @@ def _fold_call(expr: ast.Call, mod: Mod, env, prog, depth):
             return f(fn.value).format(*args, **kw)
         if meth == "join" and len(expr.args) == 1:
             return f(fn.value).join(f(expr.args[0]))
+        if meth == "escape" and isinstance(fn.value, ast.Name) and fn.value.id == "re" and len(expr.args) == 1:
+            import re as _re
+            v = f(expr.args[0])
+            if isinstance(v, str):
+                return _re.escape(v)
+            raise Unknown("re.escape of a non-string")
+        if meth in ("startswith", "endswith", "replace", "split", "rstrip", "lstrip", "title", "capitalize") \
+                and isinstance(fn.value, (ast.Constant, ast.Name)):
+            recv = f(fn.value)
+            if isinstance(recv, str):
+                try:
+                    return getattr(recv, meth)(*[f(a) for a in expr.args])
+                except Exception as e:
+                    raise Unknown(str(e))
         if meth == "compile" and isinstance(fn.value, ast.Name) and fn.value.id == "re":
             flags = 0
             if len(expr.args) > 1:
